@@ -50,6 +50,23 @@ class Obligation:
         self.model_vars = model_vars or {}
 
 
+def guarded_check(s, timeout_ms):
+    """s.check() with a watchdog: z3's own timeout is not always honoured (observed inside lp::static_matrix and in
+    quantifier instantiation); a timer thread interrupts the context shortly after the budget.  An interrupted check
+    is `unknown`."""
+    import threading
+
+    wd = threading.Timer(timeout_ms / 1000.0 * 2 + 1.0, lambda: z3.main_ctx().interrupt())
+    wd.daemon = True
+    wd.start()
+    try:
+        return s.check()
+    except z3.Z3Exception:
+        return z3.unknown
+    finally:
+        wd.cancel()
+
+
 def _prune_solver(timeout_ms):
     """solver for feasibility / quick-proof queries.  The legacy simplex (arith.solver=2) is used here: with the default
     LP-based arithmetic z3 5.1 was observed (rarely, timing dependent) to spend tens of minutes inside
@@ -160,7 +177,7 @@ class Ctx:
             s = _prune_solver(self.ex.prune_timeout_ms)
             s.add(*qf)
             s.add(cond)
-            r1 = s.check()
+            r1 = guarded_check(s, self.ex.prune_timeout_ms)
             if r1 == z3.unsat:
                 return False
             if r1 == z3.sat:
@@ -170,7 +187,7 @@ class Ctx:
         s = _prune_solver(budget)
         s.add(*self.pc)
         s.add(cond)
-        r = s.check()
+        r = guarded_check(s, budget)
         return r != z3.unsat
 
     def branch(self, cond) -> bool:
@@ -208,7 +225,7 @@ class Ctx:
             s = _prune_solver(timeout_ms)
             s.add(*qf)
             s.add(z3.Not(f))
-            if s.check() == z3.unsat:
+            if guarded_check(s, timeout_ms) == z3.unsat:
                 return True
             if qf_first_only:
                 return False
@@ -216,7 +233,7 @@ class Ctx:
         s.set("timeout", timeout_ms)
         s.add(*self.pc)
         s.add(z3.Not(f))
-        return s.check() == z3.unsat
+        return guarded_check(s, timeout_ms) == z3.unsat
 
     def oblige(self, name, kind, goal, site=None, note="", model_vars=None):
         key = (name, tuple(self.decisions))
